@@ -97,7 +97,8 @@ def OpOK : COp P → Prop
   | _ => True
 
 theorem execOp_refine (ha : LawfulAmp α P) (hs : LawfulSim α P nz) (hsem : GateSemOK α n valid)
-    (hloc : LocalWeights α) {nonzero : List α → Bool} (hnzb : NonzeroOK nonzero) {N : Nat} {s : VecState α} {c : List Nat} {op : COp P}
+    {nonzero : List α → Bool} (hnzb : NonzeroOK nonzero) {N : Nat} {s : VecState α} {c : List Nat} {op : COp P}
+    (hloc : op = .resetAll → LocalWeights α)
     (hop : OpValid valid op) (hok : OpOK op) (hwf : WFState n N s c)
     {ds ds' : List Draw} {s' : VecState α} {c' : List Nat}
     (h : Runs (suppBin nz) (suppCat nz) (execOp (vecBackend (α := α) (P := P)) s c op) ds (.ok (s', c')) ds') :
@@ -106,7 +107,7 @@ theorem execOp_refine (ha : LawfulAmp α P) (hs : LawfulSim α P nz) (hsem : Gat
   | gate g bits => exact refine_gate hsem hop hwf h
   | cond control target g bits => exact refine_cond hsem hop hwf h
   | reset q => exact refine_reset ha hs hsem hwf h
-  | resetAll => exact refine_resetAll ha hs hsem hloc hwf h
+  | resetAll => exact refine_resetAll ha hs hsem (hloc rfl) hwf h
   | measure q cb b => exact refine_measure ha hs hsem hwf h
   | measureAll cbits b => exact refine_measureAll ha hs hsem hok hwf h
   | peek q cb b => exact refine_peek ha hs hsem hnzb hwf h
@@ -120,8 +121,9 @@ abbrev ShotRecord (regs : List (List Nat)) (i : Nat) (outs : List Nat) : Prop :=
 /-- the refinement invariant, from an arbitrary well-formed state: every shot related to a candidate of the
 replay so far stays related to a candidate of the replay continued with its own outcome record -/
 theorem execOps_refine (ha : LawfulAmp α P) (hs : LawfulSim α P nz) (hsem : GateSemOK α n valid)
-    (hloc : LocalWeights α) {nonzero : List α → Bool} (hnzb : NonzeroOK nonzero) {N : Nat} :
+    {nonzero : List α → Bool} (hnzb : NonzeroOK nonzero) {N : Nat} :
     ∀ (ops : List (COp P)) (s : VecState α) (c : List Nat), OpsValid valid ops → (∀ op ∈ ops, OpOK op) →
+    (COp.resetAll ∈ ops → LocalWeights α) →
     WFState n N s c → ∀ {ds ds' : List Draw} {s' : VecState α} {c' : List Nat} {regs : List (List Nat)},
     RunsTrace (vecBackend (α := α) (P := P)) (suppBin nz) (suppCat nz) s c ops ds regs s' c' ds' →
     ∀ (i : Nat) (col : List α) (w : Nat) (ψ : List α) (cands : List (List α × Nat)),
@@ -131,23 +133,25 @@ theorem execOps_refine (ha : LawfulAmp α P) (hs : LawfulSim α P nz) (hsem : Ga
   intro ops
   induction ops with
   | nil =>
-    intro s c _ _ _ ds ds' s' c' regs ht i col w ψ cands hcol hw hwb hrel hmem
+    intro s c _ _ _ _ ds ds' s' c' regs ht i col w ψ cands hcol hw hwb hrel hmem
     cases ht
     exact ⟨[], col, w, ψ, .nil, hcol, hw, hwb, by simpa [replay] using hmem, hrel⟩
   | cons op rest ih =>
-    intro s c hv hok hwf ds ds' s' c' regs ht i col w ψ cands hcol hw hwb hrel hmem
+    intro s c hv hok hloc hwf ds ds' s' c' regs ht i col w ψ cands hcol hw hwb hrel hmem
     cases ht with
     | @cons _ _ _ _ _ s1 c1 d1 regs1 _ _ _ h1 ht1 =>
       have hop := hv op List.mem_cons_self
       have hwf1 := execOp_wf hsem.toShape hsem.basis hop hwf h1
       obtain ⟨col1, w1, φ1, e1, e2, e3, e4, e5⟩ :=
-        execOp_refine ha hs hsem hloc hnzb hop (hok op List.mem_cons_self) hwf h1 i col w ψ hcol hw hwb hrel
+        execOp_refine ha hs hsem hnzb (fun e => hloc (e ▸ List.mem_cons_self)) hop (hok op List.mem_cons_self) hwf h1
+          i col w ψ hcol hw hwb hrel
       have hmem1 : (φ1, w1) ∈ ((cands.flatMap fun (ψw : List α × Nat) => replayOp n nonzero op ψw.1 ψw.2 w1).filter
           fun cd => nonzero cd.1) := by
         rw [List.mem_filter]
         exact ⟨List.mem_flatMap.mpr ⟨(ψ, w), hmem, e4⟩, e5.nonzero ha hs hnzb⟩
       obtain ⟨outs, col', w', φ, f1, f2, f3, f4, f5, f6⟩ :=
-        ih s1 c1 (fun o ho => hv o (List.mem_cons_of_mem _ ho)) (fun o ho => hok o (List.mem_cons_of_mem _ ho)) hwf1 ht1
+        ih s1 c1 (fun o ho => hv o (List.mem_cons_of_mem _ ho)) (fun o ho => hok o (List.mem_cons_of_mem _ ho))
+          (fun hm => hloc (List.mem_cons_of_mem _ hm)) hwf1 ht1
           i col1 w1 φ1 _ e1 e2 e3 e5 hmem1
       exact ⟨w1 :: outs, col', w', φ, .cons e2 f1, f2, f3, f4, by simpa [replay] using f5, f6⟩
 
@@ -165,8 +169,8 @@ theorem rel_ket0 (ha : LawfulAmp α P) (hs : LawfulSim α P nz) (n : Nat) : Rel 
 
 /-- **`shot_refinement`** (Runs form) -/
 theorem shot_refinement_runs (ha : LawfulAmp α P) (hs : LawfulSim α P nz) (hsem : GateSemOK α n valid)
-    (hloc : LocalWeights α) {nonzero : List α → Bool} (hnzb : NonzeroOK nonzero) {N : Nat} (ops : List (COp P))
-    (hv : OpsValid valid ops) (hok : ∀ op ∈ ops, OpOK op) {ds ds' : List Draw} {s' : VecState α} {c' : List Nat}
+    {nonzero : List α → Bool} (hnzb : NonzeroOK nonzero) {N : Nat} (ops : List (COp P))
+    (hv : OpsValid valid ops) (hok : ∀ op ∈ ops, OpOK op) (hloc : COp.resetAll ∈ ops → LocalWeights α) {ds ds' : List Draw} {s' : VecState α} {c' : List Nat}
     (h : Runs (suppBin nz) (suppCat nz)
       (execOps (vecBackend (α := α) (P := P)) (VecState.new n N) (List.replicate N 0) ops) ds (.ok (s', c')) ds') :
     WFState n N s' c' ∧
@@ -178,7 +182,7 @@ theorem shot_refinement_runs (ha : LawfulAmp α P) (hs : LawfulSim α P nz) (hse
   obtain ⟨regs, ht⟩ := (runs_execOps_iff_trace _ _ _ _ _ _ _).mp h
   refine ⟨regs, ht, fun i hi => ?_⟩
   obtain ⟨outs, col, w, φ, f1, f2, f3, _, f5, f6⟩ :=
-    execOps_refine ha hs hsem hloc hnzb ops _ _ hv hok (wfState_new n N) ht i (ket0 n) 0 (ket0 n) [(ket0 n, 0)]
+    execOps_refine ha hs hsem hnzb ops _ _ hv hok hloc (wfState_new n N) ht i (ket0 n) 0 (ket0 n) [(ket0 n, 0)]
       (by rw [shotStates_new, List.getElem?_replicate, if_pos hi]) (by rw [List.getElem?_replicate, if_pos hi])
       (by decide) (rel_ket0 ha hs n) (by simp)
   exact ⟨outs, col, w, φ, f1, f2, f3, f5, f6, f6.weight ha hs⟩
